@@ -34,7 +34,7 @@ Proof. exact trace_value_shape_lemma. Qed.
 Print Assumptions trace_value_shape.
 
 (* BOUNDED companion (a finite sweep, the bound is in the statement): for EVERY spec shape of nesting depth <= 2 with at most
-   two children per node over leaf / dict / chain / Coalesce / Or / Switch (10810 shapes, every success / failure pattern
+   two children per node over leaf / dict / chain / Coalesce / Or / Switch (100110 shapes, every success / failure pattern
    of the leaves), the trace the breadcrumb machine produces is exactly the structural reading of the property
    (Spec/TraceSpec.v: ancestors in order with the targets received, chain steps done, every attempted branch with its own
    failure trace, abandoned branches absent, errors where they were raised).  The unbounded statement is validated on every
